@@ -763,9 +763,10 @@ def session_plan(rng, fam, quick, heavy):
         # every module first once and last once, then a sample
         keep = []
         for m in mods:
-            keep.append(next(p for p in perms if p[0] == m))
+            if not quick:
+                keep.append(next(p for p in perms if p[0] == m))
             keep.append(next(p for p in perms if p[-1] == m))
-        perms = [list(x) for x in dict.fromkeys(tuple(p) for p in keep + perms[:(4 if quick else 10)])]
+        perms = [list(x) for x in dict.fromkeys(tuple(p) for p in keep + perms[:(0 if quick else 10)])]
     plan = []
     for i, m in enumerate(mods):
         plan.append(("iso%d" % i, 0, [dict(ep="compile_str", files=[m], save="s0")]))
@@ -834,7 +835,7 @@ def start_session_families(ctx, ex):
     rng = random.Random(ctx.seed * 1000003 + 4242)     # own stream: the modules of the older strata keep their content
     wd = ctx.workdir
     fams = []
-    specs = [("a", 3, False, False, True), ("b", 3, True, True, False)] if quick else \
+    specs = [("a", 3, False, False, True), ("b", 3, True, False, False)] if quick else \
             [("a", 3, False, False, True), ("b", 3, True, True, True), ("c", 3, False, True, True), ("d", 4, False, False, True),
              ("e", 5, False, False, False), ("f", 4, True, False, False), ("g", 3, False, False, False), ("h", 3, False, False, False)]
     for tag, nmod, with_impl, with_mv, heavy in specs:
